@@ -1,4 +1,4 @@
-package main
+package main_test
 
 // C20 — the HTTP service answers every request and survives it.
 
